@@ -46,6 +46,9 @@ func TestMain(m *testing.M) {
 }
 
 type Op struct {
+	// Inject (local ops only): a second source-local mutation made from inside the server's push of
+	// the first one (schedule point srv.pushBeforeNotify: snapshot collected, not yet memorized)
+	Inject *gen.Step `json:"inject,omitempty"`
 	Via  string   `json:"via"` // local | client | cut | drift | sync
 	Step gen.Step `json:"step,omitempty"`
 }
@@ -240,18 +243,22 @@ func runCase(c Case, st *ev.Stats) error {
 	}
 	tracked = am.StatesDiff(tracked, am.S(c.Skipped))
 
-	// reply-held-until-push script
+	// schedule-point scripts: a reply held until a push went out; a mutation injected inside a push
 	var held atomic.Bool
 	var pushes atomic.Int32
-	if c.HoldReply {
+	var injectFn atomic.Pointer[func()]
+	{
 		var first atomic.Bool
 		hookMu.Lock()
 		hookByS[srv] = func(point string) {
 			switch point {
 			case "srv.pushBeforeNotify":
 				pushes.Add(1)
+				if f := injectFn.Swap(nil); f != nil {
+					(*f)()
+				}
 			case "srv.mutationReplyUnlocked":
-				if first.CompareAndSwap(false, true) {
+				if c.HoldReply && first.CompareAndSwap(false, true) {
 					held.Store(true)
 					// the export lock is released: let a push overtake this reply
 					src.Add1(names[0], am.A{"overtake": 1})
@@ -268,7 +275,7 @@ func runCase(c Case, st *ev.Stats) error {
 		defer func() { hookMu.Lock(); delete(hookByS, srv); hookMu.Unlock() }()
 	}
 
-	faults, replies := 0, 0
+	faults, replies, injected := 0, 0, 0
 	lastWasClient := false
 	trackedSum := func() uint64 {
 		var sum uint64
@@ -284,7 +291,23 @@ func runCase(c Case, st *ev.Stats) error {
 		_ = sumBefore
 		switch op.Via {
 		case "local":
-			rec.Apply(src, op.Step)
+			if op.Inject != nil && c.PushMs > 0 {
+				inj := *op.Inject
+				var fired atomic.Bool
+				f := func() { fired.Store(true); rec.Apply(src, inj) }
+				injectFn.Store(&f)
+				rec.Apply(src, op.Step)
+				dl := time.Now().Add(300 * time.Millisecond)
+				for !fired.Load() && time.Now().Before(dl) {
+					time.Sleep(time.Millisecond)
+				}
+				injectFn.Store(nil)
+				if fired.Load() {
+					injected++
+				}
+			} else {
+				rec.Apply(src, op.Step)
+			}
 			lastWasClient = false
 		case "client":
 			// only states the client knows
@@ -432,43 +455,44 @@ func runCase(c Case, st *ev.Stats) error {
 		}
 		return true, ""
 	}
-	pushedAll := func() bool {
-		if c.PushMs == 0 {
-			return true
-		}
-		lp, tl := srv.VerifLastPush(), srv.VerifTracerLatest()
-		if lp == nil || tl == nil {
-			return true
-		}
-		return lp.TrackedTimeSum == tl.TrackedTimeSum && lp.QueueTick == tl.QueueTick
+	// Quiescence is judged without the server's own bookkeeping: the source has been idle and the
+	// client Ready for a whole window (>= 2 s, >= 100 push intervals) and the mirror still differs.
+	window := 2 * time.Second
+	if w := time.Duration(c.PushMs) * 100 * time.Millisecond; w > window {
+		window = w
 	}
-	deadline := time.Now().Add(4 * time.Second)
+	deadline := time.Now().Add(window + 6*time.Second)
+	var stableSince time.Time
 	var why string
 	for {
-		idle := src.QueueLen() == 0 && src.Transition() == nil
-		if idle && pushedAll() && cli.Mach.Is1(ssrpc.ClientStates.Ready) {
-			// nothing is pending that could still repair the mirror: give in-flight bytes a moment, then decide
-			time.Sleep(30 * time.Millisecond)
+		idle := src.QueueLen() == 0 && src.Transition() == nil && cli.Mach.Is1(ssrpc.ClientStates.Ready)
+		if idle {
 			ok, w := equal()
 			if ok {
 				break
 			}
-			if pushedAll() && src.QueueLen() == 0 {
-				time.Sleep(150 * time.Millisecond)
-				if ok2, w2 := equal(); !ok2 && pushedAll() {
-					if driftUndetected() {
-						if st != nil {
-							st.Eval(1)
-							st.Class("drift-never-detected (not asserted)")
-						}
-						return nil
-					}
-					return fmt.Errorf("at quiescence (source idle, every snapshot pushed, client Ready) the mirror differs from the source: %s; source %s mirror %s",
-						w2, src.StringAll(), nm.StringAll())
-				}
-				break
-			}
 			why = w
+			if stableSince.IsZero() {
+				stableSince = time.Now()
+			}
+			if time.Since(stableSince) > window {
+				if driftUndetected() {
+					if st != nil {
+						st.Eval(1)
+						st.Class("drift-never-detected (not asserted)")
+					}
+					return nil
+				}
+				lp, tl := srv.VerifLastPush(), srv.VerifTracerLatest()
+				book := ""
+				if lp != nil && tl != nil {
+					book = fmt.Sprintf("; server memorized push (sum %d, queue tick %d), tracer latest (sum %d, queue tick %d)", lp.TrackedTimeSum, lp.QueueTick, tl.TrackedTimeSum, tl.QueueTick)
+				}
+				return fmt.Errorf("at quiescence (source idle and client Ready for %s, push interval %d ms) the mirror differs from the source: %s; source %s mirror %s%s",
+					window, c.PushMs, w, src.StringAll(), nm.StringAll(), book)
+			}
+		} else {
+			stableSince = time.Time{}
 		}
 		if time.Now().After(deadline) {
 			if st != nil {
@@ -486,7 +510,13 @@ func runCase(c Case, st *ev.Stats) error {
 		if faults > 0 {
 			st.Class("faults-injected")
 		}
-		if (replies > 0 && c.PushMs > 0) || faults > 0 {
+		if injected > 0 {
+			st.Class("mutation-injected-inside-a-push")
+		}
+		if c.Shallow && c.PushMs > 0 {
+			st.Class("shallow+push")
+		}
+		if (replies > 0 && c.PushMs > 0) || faults > 0 || injected > 0 {
 			st.NonTrivial(c.key())
 			st.Sample(cfg, 1, c)
 		}
@@ -549,7 +579,12 @@ func genCase(t *rapid.T) Case {
 		k := rapid.IntRange(0, 19).Draw(t, lbl)
 		switch {
 		case k < 9:
-			c.Ops = append(c.Ops, Op{Via: "local", Step: gen.GenStep(t, sc, gen.HistoryOpts{Ops: []string{"add", "remove", "set"}, NoDup: true}, lbl)})
+			o := Op{Via: "local", Step: gen.GenStep(t, sc, gen.HistoryOpts{Ops: []string{"add", "remove", "set"}, NoDup: true}, lbl)}
+			if c.PushMs > 0 && rapid.IntRange(0, 3).Draw(t, lbl+"inj") == 0 {
+				in := gen.GenStep(t, sc, gen.HistoryOpts{Ops: []string{"add", "remove", "set"}, NoDup: true}, lbl+"i")
+				o.Inject = &in
+			}
+			c.Ops = append(c.Ops, o)
 		case k < 17:
 			c.Ops = append(c.Ops, Op{Via: "client", Step: gen.GenStep(t, sc, gen.HistoryOpts{Ops: []string{"add", "remove", "set"}, NoDup: true}, lbl)})
 		case k == 17:
@@ -569,6 +604,40 @@ func TestConverges(t *testing.T) {
 	st.SetRapid(40, 2000, 1)
 	rapid.Check(t, func(t *rapid.T) {
 		c := genCase(t)
+		st.Journal(map[string]any{"kind": "c09", "case": c})
+		if err := runCase(c, st); err != nil {
+			ev.G().PinLast()
+			t.Fatalf("C09 violated: %v", err)
+		}
+	})
+}
+
+// TestQuietTail: histories that END with a source-local change followed by silence - the only
+// thing that can bring the mirror up to date then is the server's own push machinery. Shallow
+// clocks (the "time sum" is the number of active states) and a mutation landing inside the
+// push of the previous one are over-represented.
+func TestQuietTail(t *testing.T) {
+	st := ev.G()
+	st.SetRapid(70, 1500, 2)
+	rapid.Check(t, func(t *rapid.T) {
+		c := genCase(t)
+		c.HoldReply = false
+		c.PushMs = rapid.SampledFrom([]int{2, 20}).Draw(t, "tailPushMs")
+		c.Shallow = rapid.Bool().Draw(t, "tailShallow")
+		if c.Shallow {
+			c.SyncMuts = false
+		}
+		// drop trailing non-local ops, then end with 1-2 local ops
+		n := rapid.IntRange(1, 2).Draw(t, "tailN")
+		for i := 0; i < n; i++ {
+			lbl := fmt.Sprintf("tail%d", i)
+			o := Op{Via: "local", Step: gen.GenStep(t, c.Schema, gen.HistoryOpts{Ops: []string{"set", "add", "remove", "set"}, NoDup: true}, lbl)}
+			if rapid.Bool().Draw(t, lbl+"inj") {
+				in := gen.GenStep(t, c.Schema, gen.HistoryOpts{Ops: []string{"add", "remove", "set"}, NoDup: true}, lbl+"i")
+				o.Inject = &in
+			}
+			c.Ops = append(c.Ops, o)
+		}
 		st.Journal(map[string]any{"kind": "c09", "case": c})
 		if err := runCase(c, st); err != nil {
 			ev.G().PinLast()
